@@ -1436,6 +1436,15 @@ def _conjuncts(g):
     return [g]
 
 
+def _load_factor():
+    """solver budgets are wall-clock: stretch them when the machine is busy, so that verdicts do not flip to 'undecided' under load"""
+    try:
+        import os
+        return min(6.0, max(1.0, os.getloadavg()[0] / 6.0))
+    except OSError:
+        return 1.0
+
+
 def discharge(vc, timeout_ms=20000):
     """(status, backend, detail, model, wall).  The goal is split into conjuncts proved in order; proved conjuncts are
     added as hypotheses for the later ones (cut rule)."""
@@ -1460,6 +1469,7 @@ def discharge(vc, timeout_ms=20000):
     full_hyps = hyps
     hyps = _slice(hyps, goal)          # cone of influence: hypotheses sharing no symbol (transitively) with the goal are dropped
     hints = div_hints(hyps + [goal])
+    timeout_ms = int(timeout_ms * _load_factor())
     s = z3.Solver()
     s.set("timeout", timeout_ms)
     s.add(*hyps)
